@@ -261,6 +261,22 @@ func cmdCheck(args []string) int {
 	if len(items) == 0 && len(ps.Bounded) == 0 {
 		return internalErr("no obligations generated for %s", id)
 	}
+	if !*rebase {
+		inBase0 := map[string]bool{}
+		for _, bg := range baseline {
+			inBase0[bg] = true
+		}
+		for _, f := range findings {
+			if f.Property == id {
+				inBase0[f.Group] = true
+			}
+		}
+		for _, it := range items {
+			if !inBase0[it.o.Group] {
+				it.quickOnly = true
+			}
+		}
+	}
 	solveAll(items, outDir, timeout, 16)
 
 	// group results
